@@ -8,7 +8,7 @@ EXTENDS Ir, TLC, TLCExt, Json, IOUtils
 VARIABLE l
 Tr == ndJsonDeserialize(IOEnv.TRACE_FILE)
 
-FlagOrder == <<"empty", "root", "scope", "dir_ltr", "dir_rtl">>
+FlagOrder == <<"empty", "root", "default", "indeterminate", "scope", "dir_ltr", "dir_rtl", "in_range", "out_of_range", "defined", "placeholder">>
 ProjFlags(fs) == SelectSeq(FlagOrder, LAMBDA f : f \in fs)
 ProjPrefix(ns, isAttr) == IF isAttr /\ ns.t = "none" THEN [t |-> "bare"] ELSE ns       \* [|a] and [a] are the same IR
 Bits(pool, P(_)) == LET RECURSIVE B(_)
